@@ -31,6 +31,8 @@ def run(prog, chk):
         "include() statements resolve against the parent directory of the UFO with and without feature writers (parseLayoutFeatures' includeDir; the file name buildTables hands to feaLib) (R17.7)",
         "generated glyph classes never take a class name the feature file already defines: every writer hands its feature file to makeGlyphClassDefinitions, which reserves the existing names (R17.8)",
     ]
+    chk.decided += ["an insertion marker is a comment that *is* the marker: the pattern is matched anchored at the start of the comment (re.match / fullmatch), and the marker pattern itself starts "
+                    "with the comment sign - a user's comment that merely mentions the marker text is left alone (R17.11)"]
     chk.not_decided += ["index arithmetic of marker placement", "GSUB byte identity", "feaLib's asFea() round trip"]
     chk.decided += ["a generated feature is inserted as its own top-level block; a user's block only ever loses statements in _insert (R17.9, shared with C20)"]
     chk.decided += ["what the user's GDEF table defines (glyph classes; ligature carets by position or by index - classes read from fontTools) is not generated again (R17.10)"]
@@ -44,6 +46,7 @@ def run(prog, chk):
     chk.guard(r178, prog, chk)
     chk.guard(check_generated_blocks_top_level, prog, chk, "R17.9")
     chk.guard(r1710, prog, chk)
+    chk.guard(r1711, prog, chk)
 
 
 # ----------------------------------------------------------------------------- R17.1
@@ -604,7 +607,58 @@ def r1710(prog, chk):
     chk.minimum("R17.10", 2)
 
 
+# ----------------------------------------------------------------------------- R17.11
+def r1711(prog, chk):
+    ix = prog.ix
+    f = ix.get_func("ufo2ft.featureWriters.ast:findCommentPattern")
+    pat = f.params()[1]
+    ANCHORED, FLOATING = ("match", "fullmatch"), ("search", "findall", "finditer", "split", "sub", "subn")
+    uses = []
+    for c in A.body_nodes(f.node):
+        if not (isinstance(c, ast.Call) and isinstance(c.func, ast.Attribute) and c.func.attr in ANCHORED + FLOATING):
+            continue
+        recv = c.func.value
+        # re.match(pattern, text) or <compiled pattern>.match(text)
+        via_module = ix.resolve_expr(f.module, recv, None) == "re"
+        compiled = False
+        if not via_module:
+            okc, _ = every_origin(prog, f, recv, lambda x, ff: isinstance(x, ast.Call) and A.callee_name(x) == "compile" and x.args and T(x.args[0]) == pat, allow_const=False)
+            compiled = okc
+        if via_module and c.args and T(c.args[0]) == pat or compiled:
+            uses.append(c)
+    ok = len(uses) == 1 and uses[0].func.attr in ANCHORED
+    chk.ob("R17.11", f"{f.short}|the marker pattern is matched anchored at the start of the comment", ok, where(f, uses[0]) if uses else where(f), detail=T(uses[0], 70) if uses else "no regex use found",
+           message=f"{f.short}: the insertion-marker pattern is no longer matched from the start of the comment (`{T(uses[0], 60) if uses else ''}`): a user's comment that only mentions "
+                   f"the marker text is taken for a marker - the comment is removed and generated code is merged into a feature the user wrote without a marker")
+    # the pattern: optional white space, then the comment sign and the marker text
+    bw = ix.get_module("ufo2ft.featureWriters.baseFeatureWriter")
+    e = bw.constants.get("INSERT_FEATURE_MARKER")
+    okp, shown = False, ""
+    if isinstance(e, ast.Constant) and isinstance(e.value, str):
+        import re._parser as rp
+        shown = e.value
+        try:
+            items = list(rp.parse(e.value))
+        except Exception:
+            items = []
+        k = 0
+        while k < len(items) and str(items[k][0]) in ("MAX_REPEAT", "MIN_REPEAT") and str(items[k][1][2][0][0]) == "IN":
+            k += 1  # leading \s*
+        lits = []
+        while k < len(items) and str(items[k][0]) == "LITERAL":
+            lits.append(chr(items[k][1]))
+            k += 1
+        okp = "".join(lits).startswith("# Automatic Code")
+    chk.ob("R17.11", "INSERT_FEATURE_MARKER = optional white space, then '# Automatic Code'", okp, bw.relpath, detail=shown, nontrivial=False,
+           message=f"the insertion marker pattern changed (`{shown}`): comments of the user that are not markers can match")
+    chk.minimum("R17.11", 2)
+
+
 MUTANTS = [
+    M("marker pattern searched anywhere in the comment (seeded C17j)", "ufo2ft/featureWriters/ast.py", "findCommentPattern",
+      "re.match(pattern, str(statement))", "re.search(pattern, str(statement))", rule="R17.11"),
+    M("marker pattern compiled once, still anchored", "ufo2ft/featureWriters/ast.py", "findCommentPattern",
+      "re.match(pattern, str(statement))", "re.compile(pattern).match(str(statement))", kind="equiv"),
     M("carets given by contour-point index do not stop caret generation (seeded C17h)", "ufo2ft/featureWriters/gdefFeatureWriter.py", "GdefFeatureWriter.setContext",
       "isinstance(fea, ast.LigatureCaretByIndexStatement) or isinstance(fea, ast.LigatureCaretByPosStatement)", "isinstance(fea, ast.LigatureCaretByPosStatement)", rule="R17.10"),
     M("generated statements spliced into the user's block at a mid-block marker (seeded C20g shape)", "ufo2ft/featureWriters/baseFeatureWriter.py", "BaseFeatureWriter._insert",
